@@ -120,6 +120,42 @@ def _r09_1(ctx):
               f"{bad['disconnect']} path(s) (exceptional exits included) do not pair server_connected with exactly one later server_disconnected", desc="server_connected -> exactly one server_disconnected on all exits")
     ctx.check(bad["answer"] == 0, "R09.1", where, "OpenConnectionCompleted exactly once",
               f"{bad['answer']} path(s) do not answer the OpenConnection command exactly once", desc="OpenConnectionCompleted exactly once per path")
+    # cancellation between server_connect and its outcome: every wait on an external awaitable there (the per-address slot, the
+    # connect call) must sit inside a handler for CancelledError - the path enumeration above then shows that the handler reports an outcome
+    def _hook_line(name):
+        ls = [c.lineno for c in calls_in(oc) if call_name(c).split(".")[-1] == name]
+        ctx.require(ls, f"open_connection no longer constructs {name}")
+        return ls
+
+    lo, hi = min(_hook_line(S_CONNECT)), min(_hook_line(S_CONNECTED))
+
+    def _guarded(node):
+        p, child = getattr(node, "_parent", None), node
+        while p is not None and p is not oc:
+            if isinstance(p, ast.Try) and child in p.body:
+                for h in p.handlers:
+                    names = [""] if h.type is None else [e.attr if isinstance(e, ast.Attribute) else getattr(e, "id", "") for e in (h.type.elts if isinstance(h.type, ast.Tuple) else [h.type])]
+                    if any(x in ("", "CancelledError", "BaseException") for x in names):
+                        return True
+            child, p = p, getattr(p, "_parent", None)
+        return False
+
+    waits = []
+    for n in walk_in_order(oc):
+        if not (lo < getattr(n, "lineno", 0) < hi):
+            continue
+        if isinstance(n, ast.Await):
+            callee = call_name(n.value) if isinstance(n.value, ast.Call) else norm(n.value)
+            if callee.startswith("self."):
+                continue  # handle_hook / server_event: see the stated cancellation model
+            waits.append((n, callee))
+        elif isinstance(n, ast.AsyncWith):
+            waits.append((n, "async with " + ", ".join(norm(i.context_expr) for i in n.items)))
+    ctx.require(len(waits) >= 2, f"open_connection: expected the slot wait and the connect call between server_connect and server_connected, found {[w[1] for w in waits]}")
+    for n, what in waits:
+        ctx.check(_guarded(n), "R09.1", (F, "ConnectionHandler.open_connection", n), f"wait `{what}` between server_connect and its outcome is cancellation-guarded",
+                  f"`{what}` can be cancelled (client disconnect) after server_connect fired, outside any handler for asyncio.CancelledError: "
+                  "the attempt then has neither server_connected nor server_connect_error and the layer's OpenConnection is never answered", desc=f"{what}: inside a CancelledError handler")
     # who may fire
     sites = {}
     for p in sorted((m.repo / "mitmproxy").rglob("*.py")):
@@ -143,7 +179,7 @@ def _r09_1(ctx):
             ctx.check(rel == F and q == want, "R09.1", (rel, q, c), f"{cls}(...) instantiated outside {want}",
                       "a lifecycle hook is fired from a second place: the once-per-connection pairing is no longer decided by open_connection/handle_client",
                       desc=f"{cls} only in {want}")
-    ctx.expect_instances("R09.1", 4 + 6)  # 4 path facts + at least one instantiation site per lifecycle hook class (7 today)
+    ctx.expect_instances("R09.1", 4 + 6 + 2)  # 4 path facts + at least one instantiation site per lifecycle hook class (7 today)
 
 
 def _r09_2(ctx):
@@ -215,9 +251,22 @@ def _r09_2(ctx):
 def _r09_3(ctx):
     oc = ctx.func(F, "ConnectionHandler.open_connection")
     hconn_name = "self.handle_connection"
+    # the per-address limit is held either by `async with self.max_conns[key]:` or by the explicit idiom
+    #   lim = self.max_conns[key]; await lim.acquire(); try: ... finally: lim.release()
     withs = [n for n in walk_in_order(oc) if isinstance(n, ast.AsyncWith) and any(norm(i.context_expr).startswith("self.max_conns[") for i in n.items)]
-    ctx.require(len(withs) == 1, f"open_connection: {len(withs)} `async with self.max_conns[...]` blocks (exactly one modelled)")
-    sem = next(i.context_expr for i in withs[0].items if norm(i.context_expr).startswith("self.max_conns["))
+    aliases = [n for n in walk_in_order(oc) if isinstance(n, ast.Assign) and len(n.targets) == 1 and isinstance(n.targets[0], ast.Name) and norm(n.value).startswith("self.max_conns[")]
+    ctx.require(len(withs) + len(aliases) == 1, f"open_connection: {len(withs)} `async with self.max_conns[...]` blocks and {len(aliases)} `x = self.max_conns[...]` aliases (exactly one holder modelled)")
+    if withs:
+        sem = next(i.context_expr for i in withs[0].items if norm(i.context_expr).startswith("self.max_conns["))
+        anchor_node = withs[0]
+        ACQ = REL_ = None
+    else:
+        sem = aliases[0].value
+        anchor_node = aliases[0]
+        alias = aliases[0].targets[0].id
+        ACQ, REL_ = f"{alias}.acquire", f"{alias}.release"
+        others = [n for n in ast.walk(oc) if isinstance(n, ast.Name) and n.id == alias and isinstance(n.ctx, ast.Load) and not (isinstance(getattr(n, "_parent", None), ast.Attribute) and n._parent.attr in ("acquire", "release"))]
+        ctx.require(not others, f"open_connection: the semaphore alias `{alias}` is used other than by .acquire()/.release() (not modelled)")
     key = sem.slice
     key_chain = attr_chain(key)
     ctx.require(key_chain.count(".") >= 1, f"max_conns is keyed by {norm(key)} (an attribute of the connection is modelled)")
@@ -227,6 +276,8 @@ def _r09_3(ctx):
     def keep(ev):
         if ev[0] in ("enter", "exit"):
             return ev[1] == SEM
+        if ACQ and ev[0] in ("await", "call") and ev[1] in (ACQ, REL_):
+            return True
         if ev[0] == "hook":
             return ev[1] in (S_CONNECTED, S_DISC)
         return ev[0] in ("await", "call") and (ev[1] in CONNECT_CALLS or ev[1] == hconn_name)
@@ -236,20 +287,28 @@ def _r09_3(ctx):
     ctx.paths += len(term)
     outside = set()
     seen = set()
+    unbalanced = 0
     for t, how, st in term:
         depth = 0
         for e in t:
-            if e[0] == "enter":
+            if e[0] == "except" or (ACQ and e == ("call", ACQ)):
+                continue  # (an interrupted acquire raises before its await event is recorded: no slot is held in its handler)
+            if e[0] == "enter" or (ACQ and e == ("await", ACQ)):
                 depth += 1
-            elif e[0] == "exit":
+            elif e[0] == "exit" or (ACQ and e == ("call", REL_)):
                 depth -= 1
             else:
                 label = e[1]
                 seen.add(label)
                 if depth <= 0:
                     outside.add(label)
+        if depth != 0:
+            unbalanced += 1
     ctx.require({S_CONNECTED, S_DISC, hconn_name} <= seen and seen & set(CONNECT_CALLS), f"open_connection: connect/serve events not found ({sorted(seen)})")
-    where = (F, "ConnectionHandler.open_connection", withs[0])
+    where = (F, "ConnectionHandler.open_connection", anchor_node)
+    if ACQ:
+        ctx.check(unbalanced == 0, "R09.3", where, f"{ACQ}() paired with {REL_}() on every exit",
+                  f"{unbalanced} exit path(s) (exceptional ones included) keep or over-release a slot of max_conns[address]: the limit of five drifts", desc=f"{ACQ} / {REL_} balanced on all {len(term)} exits")
     for label in sorted(seen):
         ctx.check(label not in outside, "R09.3", where, f"{label} outside the per-address semaphore",
                   "part of the connect-and-serve region runs without holding max_conns[address]: more than five connections to one address can be open",
@@ -339,7 +398,60 @@ def _r09_4(ctx):
     ctx.check(bad_pop == 0, "R09.4", where, "self.transports.pop(connection) exactly once on every exit",
               f"{bad_pop} exit path(s) (of {len(term)}) leave the connection in self.transports or pop it twice: resources remain after the connection ended", desc=f"pop exactly once on all {len(term)} exits ({sorted(hows)})")
     ctx.check(bad_close == 0, "R09.4", where, "writer.close() before the pop", f"{bad_close} exit path(s) forget the transport without closing its writer", desc="writer closed before the pop on all exits")
-    ctx.expect_instances("R09.4", 2)
+    # cancellation can be delivered at every await that really suspends.  The path enumeration above models it where the code
+    # has a handler; an await that suspends on an external awaitable *outside* any CancelledError handler lets the exception
+    # leave the function before the close / pop at its end.
+    m = ctx.model
+
+    def external_awaits(fn, seen):
+        """awaits in fn (transitively through awaited methods of the same class) whose awaitable is not repository code"""
+        out = []
+        for n in ast.walk(fn):
+            if not isinstance(n, ast.Await):
+                continue
+            v = n.value
+            callee = call_name(v) if isinstance(v, ast.Call) else ""
+            if callee.startswith("self.") and callee.count(".") == 1 and m.has(F, "ConnectionHandler." + callee[5:]):
+                name = callee[5:]
+                if name not in seen:
+                    seen.add(name)
+                    out.extend(external_awaits(m.func(F, "ConnectionHandler." + name), seen))
+            else:
+                out.append(n)
+        return out
+
+    def guarded(node):
+        p = getattr(node, "_parent", None)
+        child = node
+        while p is not None and p is not hconn:
+            if isinstance(p, ast.Try) and child in p.body:
+                names = [last for h in p.handlers for last in ([""] if h.type is None else [e.attr if isinstance(e, ast.Attribute) else getattr(e, "id", "") for e in (h.type.elts if isinstance(h.type, ast.Tuple) else [h.type])])]
+                if any(x in ("", "CancelledError", "BaseException") for x in names):
+                    return True
+                if any(isinstance(c, ast.Call) and call_name(c) == POP for st in p.finalbody for c in ast.walk(st)):
+                    return True
+            child, p = p, getattr(p, "_parent", None)
+        return False
+
+    n_susp = 0
+    for aw in [n for n in ast.walk(hconn) if isinstance(n, ast.Await)]:
+        v = aw.value
+        callee = call_name(v) if isinstance(v, ast.Call) else norm(v)
+        if callee.startswith("self.") and callee.count(".") == 1 and m.has(F, "ConnectionHandler." + callee[5:]):
+            ext = external_awaits(m.func(F, "ConnectionHandler." + callee[5:]), {callee[5:]})
+            if not ext:
+                continue  # suspends at most on an (uncontended) lock: the stated cancellation model of C09
+            why = f"{callee} awaits {norm(ext[0].value)[:60]}"
+        else:
+            why = "external awaitable"
+        n_susp += 1
+        ctx.check(guarded(aw), "R09.4", (F, "ConnectionHandler.handle_connection", aw), f"await {callee}(...) inside a CancelledError handler",
+                  f"`{norm(aw)[:80]}` can be cancelled while suspended ({why}) but is not inside a handler for asyncio.CancelledError: the exception leaves handle_connection "
+                  "before the writer is closed and self.transports.pop(connection) runs - the connection's resources remain after it ended",
+                  desc=f"suspending await {callee} is cancellation-guarded")
+    ctx.require(n_susp >= 3, f"handle_connection: expected at least 3 suspending awaits (read, drain, wait), found {n_susp}")
+    ctx.assume("`await self.server_event(...)` only waits for an asyncio.Lock that is never held across a suspension (its body has no await): cancellation is not modelled there")
+    ctx.expect_instances("R09.4", 2 + 3)
 
 
 def check(ctx):
@@ -378,13 +490,20 @@ MUTANTS = [
     Mutant("client-handler-not-awaited", F, "            await asyncio.wait([handler])\n            if not handler.cancelled() and (e := handler.exception()):",
            "            await asyncio.sleep(0)\n            if handler.done() and not handler.cancelled() and (e := handler.exception()):", "R09.2"),
     Mutant("remaining-transports-not-cancelled", F, "                if io.handler:\n                    io.handler.cancel(\"client disconnected\")\n", "                if io.handler:\n                    pass\n", "R09.2"),
-    Mutant("semaphore-after-connect", F,
-           "        async with self.max_conns[command.connection.address]:\n            reader: asyncio.StreamReader | mitmproxy_rs.Stream\n",
-           "        async with self.max_conns[command.connection.address]:\n            pass\n        if True:\n            reader: asyncio.StreamReader | mitmproxy_rs.Stream\n", "R09.3"),
+    Mutant("semaphore-released-before-serving", F,
+           "                await self.server_event(events.OpenConnectionCompleted(command, None))\n\n                try:\n                    await self.handle_connection(command.connection)\n",
+           "                await self.server_event(events.OpenConnectionCompleted(command, None))\n                max_conns.release()\n\n                try:\n                    await self.handle_connection(command.connection)\n", "R09.3"),
+    Mutant("semaphore-not-released", F, "        finally:\n            max_conns.release()\n", "        finally:\n            pass\n", "R09.3"),
+    # reverse of the F-C09 fix (2faf2dc6e): the slot is awaited outside any CancelledError handler
+    Mutant("F-C09-reverted-slot-wait-unguarded", F,
+           "        try:\n            await max_conns.acquire()\n        except asyncio.CancelledError:\n",
+           "        await max_conns.acquire()\n        try:\n            pass\n        except asyncio.CancelledError:\n", "R09.1"),
+    Mutant("drain-unguarded", F, "            try:\n                await self.drain_writers()\n            except asyncio.CancelledError as e:\n                cancelled = e\n                break\n",
+           "            await self.drain_writers()\n", "R09.4"),
     Mutant("semaphore-bound-50", F, "collections.defaultdict(lambda: asyncio.Semaphore(5))", "collections.defaultdict(lambda: asyncio.Semaphore(50))", "R09.3"),
     Mutant("semaphore-shared-not-fresh", F, "self.max_conns = collections.defaultdict(lambda: asyncio.Semaphore(5))",
            "self.max_conns = collections.defaultdict(lambda: asyncio.Semaphore(5))\n        self.max_conns[None] = asyncio.Semaphore(1000)", "R09.3"),
-    Mutant("semaphore-keyed-by-sockname", F, "        async with self.max_conns[command.connection.address]:", "        async with self.max_conns[command.connection.sockname]:", "R09.3"),
+    Mutant("semaphore-keyed-by-sockname", F, "        max_conns = self.max_conns[command.connection.address]\n", "        max_conns = self.max_conns[command.connection.sockname]\n", "R09.3"),
     Mutant("pop-skipped-when-cancelled", F, "        self.transports.pop(connection)\n\n        if cancelled:\n            raise cancelled\n",
            "        if cancelled:\n            raise cancelled\n        self.transports.pop(connection)\n", "R09.4"),
     Mutant("pop-inside-try-close", F, "            writer.close()\n        except OSError:\n            pass\n        self.transports.pop(connection)\n",
